@@ -93,6 +93,14 @@ class SEnum(Sym):
     __str__ = __repr__
 
 
+class SymContainer:
+    """base of symbolic containers / optional values of pyvc.models: native code must not look inside"""
+    __bool__ = _esc("__bool__")
+    __len__ = _esc("__len__")
+    __iter__ = _esc("__iter__")
+    __contains__ = _esc("__contains__")
+
+
 def is_sym(v):
     return isinstance(v, Sym)
 
@@ -412,7 +420,7 @@ class SymBytesFn:
 
 def has_sym(v, depth=4):
     """does value (shallowly, to ``depth``) contain symbolic leaves?"""
-    if isinstance(v, (Sym, SymStruct, SymBytes, SymBytesFn, SymCArray, SymStructArray)):
+    if isinstance(v, (Sym, SymStruct, SymBytes, SymBytesFn, SymCArray, SymStructArray, SymContainer)):
         return True
     if depth <= 0:
         return False
